@@ -130,6 +130,13 @@ class StartStageHandler(
                     return
 
                 # NOT_READY or UNDEFINED - need to wait or retry
+                # A stage that already left NOT_STARTED has nothing to wait for: this
+                # StartStage is stale (e.g. a later branch of an already fired
+                # discriminator / N-of-M join). Re-queuing it would exhaust the wait
+                # budget and mark the running stage TERMINAL.
+                if stage.status != WorkflowStatus.NOT_STARTED:
+                    return
+
                 # Check if any upstream stage is active (RUNNING, NOT_STARTED, etc.)
                 # If so, we can safely stop polling because the upstream stage
                 # will trigger a new StartStage message when it completes.
